@@ -119,7 +119,7 @@ namespace tt {
     std::string in;   // kinds of the inputs
     char out;         // kind of the output
     std::string hyp;  // Coq hypothesis over the inputs a b c ... ("" if none), e.g. "det2 (full_t N a) <> 0"
-    int tier;         // 0: quick and thorough, 1: thorough only
+    int tier;         // tier from which the obligations are generated: 0 quick and thorough, 1 thorough only, 9 never traced
     bool proof;       // false: "execution only" -- traced, compared with the double instantiation and with the numerical
                       // specification on the seeded inputs, but NO Coq obligation is generated (listed as not proved)
     std::function<V<Sym>(const In<Sym>&)> fs;
@@ -175,7 +175,6 @@ namespace tt {
       std::vector<int> roots{symv::node_of(outs[i])};
       const std::string lets = p.lets(roots);
       o << "Definition " << nm << "_c" << i << binder << " : R :=\n" << lets << "  " << p.expr(roots[0]) << ".\n";
-      if (!op.proof) continue;
       o << "Lemma " << nm << "_c" << i << "_ok :";
       if (!op.in.empty()) o << " forall " << ls << ",";
       o << hyp << "\n  " << nm << "_c" << i << args << " = nth " << i << " (" << spec << ") 0.\n";
@@ -184,10 +183,6 @@ namespace tt {
     o << "Definition " << nm << binder << " : list R :=\n  [";
     for (size_t i = 0; i < outs.size(); ++i) o << (i ? "; " : "") << nm << "_c" << i << args;
     o << "].\n";
-    if (!op.proof) {
-      o << "(* " << nm << ": execution only, no obligation generated (not proved) *)\n\n";
-      return;
-    }
     o << "Lemma " << nm << "_ok :";
     if (!op.in.empty()) o << " forall " << ls << ",";
     o << hyp << "\n  " << nm << args << " = " << spec << ".\n";
@@ -242,7 +237,11 @@ namespace tt {
         << header << "Import ListNotations.\nLocal Open Scope R_scope.\n\n";
       for (auto& op : ops()) {
         ++opidx;  // placement in parts does not depend on the tier
-        if (op.tier > tier) continue;
+        // every operation is EXECUTED in every tier (Sym-vs-double agreement + numerical specification on the seeded
+        // inputs: cheap); its Coq definitions and obligations are generated in the tiers >= op.tier only, and never for
+        // the "execution only" operations.  tier 9: not even traced.
+        if (op.tier >= 9) continue;
+        const bool prove = op.proof && op.tier <= tier;
         if (opidx % nparts != part) continue;
         const auto in = sym_inputs(op);
         V<Sym> outs;
@@ -252,8 +251,14 @@ namespace tt {
           std::printf("TRACE-FAIL %s_%d %s\n", op.name.c_str(), op.N, e.what());
           continue;
         }
-        emit(o, op, outs);
-        std::printf("%s %s_%d %zu\n", op.proof ? "TRACED" : "TRACED-EXEC-ONLY", op.name.c_str(), op.N, outs.size());
+        if (prove) {
+          emit(o, op, outs);
+        } else {
+          o << "(* " << op.name << "_" << op.N << ": executed only in this run ("
+            << (op.proof ? "its obligations belong to the thorough tier" : "execution only, not proved") << ") *)\n\n";
+        }
+        std::printf("%s %s_%d %zu\n", prove ? "TRACED" : (op.proof ? "TRACED-DEFERRED" : "TRACED-EXEC-ONLY"), op.name.c_str(), op.N,
+                    outs.size());
         // Sym-vs-double agreement, and the values of the real code for the independent numerical specification
         for (int s = 0; s < ns; ++s) {
           const auto din = num_inputs(op, rng, s % 3);
